@@ -1,9 +1,26 @@
 from sessproj import PROJ
+
+_C03_CODEC_OPS = ("parse", "rebuild", "ddef", "static", "set", "seti", "rm", "clear", "setgrp", "copy", "build", "bytes", "copybuild",
+                  "reparse", "has", "get", "geti", "tags", "getgrp", "new", "!label")
+
+def _c03_project(op, line):
+    # family codec: C03 observes what a resend transmits — bodyBytes of a parsed message (`B <hex>` of a parse observation) and
+    # the message rebuilt from them (`rebuild`); everything else of that family belongs to C10/C11/C13
+    k = op.split(" ")[0]
+    if k in _C03_CODEC_OPS:
+        w = line.split(" ")
+        if k == "parse":
+            return " ".join(w[3:5]) if (len(w) == 11 and w[0] == "ok") else w[0]
+        if k == "rebuild":
+            return line
+        return ""
+    return PROJ["C03"](op, line)
+
 PROPS["C03"] = {
-    "families": {"sess": {"quick": 250, "thorough": 6000}},
-    "mon_clauses": ["C03.", "C09.panic"],
-    "project": PROJ["C03"],
-    "claim": 'ResendRequest replies: contiguous PossDup cover from BeginSeqNo to min(EndSeqNo,last)+1, gap fills only over administrative / refused numbers, replays equal to what was stored; range logic of the model proved in Props/C03.lean; byte-identical bodies / BodyLength / CheckSum belong to the codec family (C10/C11) and are not claimed here.',
+    "families": {"sess": {"quick": 250, "thorough": 6000}, "codec": {"quick": 6000, "thorough": 60000}},
+    "mon_clauses": ["C03.", "C09.panic", "c03_rebuild"],
+    "project": _c03_project,
+    "claim": 'ResendRequest replies: contiguous PossDup cover from BeginSeqNo to min(EndSeqNo,last)+1, gap fills only over administrative / refused numbers, replays equal to what was stored; range logic of the model proved in Props/C03.lean; the byte layer of a replay — bodyBytes of a stored message as parsed (with no / application / transport+application dictionaries, incl. repeating groups at any depth) and the message rebuilt from them: well-formed (`c03_rebuild_wf`) and with a body byte-identical to the one parsed (`c03_rebuild_body`) — is checked by the codec family against the Lean codec model (correspondence on `parse … B <hex>` and `rebuild`) and these two monitor clauses.',
     "note": 'Lean kernel + propext/Classical.choice/Quot.sound; the session model (Qfx/Model/Session.lean, ~600 lines mirroring session.go, session_state.go, in_session.go, resend_state.go, logon_state.go, logout_state.go, pending_timeout.go) is tied to the code by driving a real session built by the real factory synchronously on generated event histories and comparing, per event, callbacks, wire writes, store mutations, timer arms, counters and state; inbound bytes are built by the harness from the same field list the model reads; not modelled: EnableNextExpectedMsgSeqNum, store I/O errors, data dictionaries in the session',
     "rule": 'seeded state-aware histories of 40-120 events (thorough 60-220): acceptor/initiator, FIX.4.0-4.4 + FIXT.1.1, chunk 0/1/2/3/5, reset flags, persistence on/off, latency check on/off, EnableLastMsgSeqNumProcessed (tag 369) in a quarter of the cases; inbound kinds app/0/1/2/3/4/5/A with sequence numbers drawn relative to the expected one (-3..+12), PossDup/OrigSendingTime variants, header defects, scripted callback verdicts, buffered arrivals, all four timer events, sends, flushes, disconnects, stops, reconnects, session-time changes, ResetSeqTime configured in a quarter of the cases with CheckResetTime calls steered onto / across / around the reset instant (also before any connection, as first call, with the clock stepping back or jumping days) followed by the echo Logon of the peer, a non-echo Logon or application traffic; distinct = distinct configurations',
     "assumptions": ["memory store semantics for the session's store", "the clock enters only as relations (SendingTime offsets far from the 120 s window edge)"],
